@@ -532,6 +532,9 @@ type SpecEnv struct {
 	pkg    string // package path suffix for name resolution
 	depth  int
 	locals *State // state whose local-variable bindings are visible inside old()
+	// in loop invariants and in-body assertions a re-assigned parameter denotes its CURRENT value (old(p) the entry value);
+	// in pre- and postconditions a parameter always denotes the value passed by the caller
+	curParams bool
 }
 
 func (x *Exec) specEnvAt(fr *Frame, st, old *State, extra map[string]Val) *SpecEnv {
@@ -696,7 +699,7 @@ func (e *SpecEnv) eval(n ast.Expr) Val {
 }
 
 func (e *SpecEnv) ident(name string) Val {
-	if e.locals == nil && e.fr != nil && e.fr.fn != nil {
+	if e.curParams && e.locals == nil && e.fr != nil && e.fr.fn != nil {
 		// a parameter that the function re-assigns: outside old() its name denotes the current value
 		if v, ok := e.st.dbg[name]; ok && isParamName(e.fr.fn, name) {
 			if _, bound := e.names[name]; bound && e.fr.names != nil {
